@@ -338,3 +338,102 @@ Proof.
   split; [repeat (constructor; try (vm_compute; discriminate))|].
   split; vm_compute; reflexivity.
 Qed.
+
+(* ------------------------------------------------------------------ the tie to the source TEXT
+   Params/Gen_Params.v is regenerated on every run by translator/py2gallina_params.py from
+   src/pydsol/core/parameters.py and model.py of the tree under test (Python `ast`,
+   fail-closed): set_value and the value property of every class, the constructors (their
+   validation ORDER included: the state at a raise is part of a constructor's answer),
+   __lt__, extended_key, add / get / remove of the map and the three accessors of the model
+   class.  Params/GenAgree.v proves every generated definition equal to the hand-written
+   function the theorems above are about -- for all arguments -- and that running an operation
+   history through the generated functions is [run repaired].  So every theorem above is a
+   theorem about what the source says now; the main ones are restated over the generated
+   functions below.  A change of the sources that changes the meaning of a method makes
+   GenAgree.v fail to compile: the check then reports the broken tie. *)
+From PV Require Import Params.Gen_Params Params.GenAgree.
+
+Theorem C18_generated_model_is_the_proved_model :
+  (forall p v, gen_dispatch_set_value p v = mres_of p (set_value repaired v p)) /\
+  (forall h ch p, gen_InputParameterMap_add (Map h ch) p = mres_of (Map h ch) (map_add p (Map h ch))) /\
+  (forall m key, gen_InputParameterMap_get (fuel_of key) m key = py_get m key) /\
+  (forall m key, gen_InputParameterMap_remove (fuel_of key) m key = rm_of m (py_remove m key)) /\
+  (forall g m key, gen_InputParameterMap_get__upd (fuel_of key) (mlift g) m key = mres_of m (py_modify g m key)) /\
+  (forall id s par, gen_construct id s par = model_ctor id s par) /\
+  (forall root key v, gen_DSOLModel_set_parameter root key v = mres_of root (py_modify (set_value repaired v) root key)) /\
+  (forall root key, gen_DSOLModel_get_parameter root key =
+     match py_get root key with
+     | Val (Leaf _ _ _ _ v) => Val (RV v) | Val (Map _ ch) => Val (RDict ch) | Raise e => Raise e
+     end) /\
+  (forall root, ext_keys EmptyString root = ext_keys_anc [] root) /\
+  (forall anc p, gen_InputParameter_extended_key (S (List.length anc)) anc p = Val (ek anc p)) /\
+  (forall st o, gen_step st o = step repaired st o) /\
+  (forall ops st, gen_run st ops = run repaired st ops).
+Proof. exact params_generated_agree. Qed.
+Print Assumptions C18_generated_model_is_the_proved_model.
+
+(* clause 1 over the generated functions: a history run through the generated constructors,
+   set_value methods, add / get / remove and model accessors never leaves an invalid value *)
+Theorem C18_generated_value_always_valid :
+  forall ops p, In p (nodes (st_root (gen_run init ops))) -> leaf_ok p.
+Proof. exact gen_value_always_valid. Qed.
+Print Assumptions C18_generated_value_always_valid.
+
+(* the generated set_value of the object's class accepts exactly the valid values of a
+   writable parameter; a refusal leaves the object as it was *)
+Theorem C18_generated_set_value_decides :
+  forall h ro c d v0 v,
+    (ro = false /\ valid_for c v = true ->
+       gen_dispatch_set_value (Leaf h ro c d v0) v = MOk (Leaf h ro c d v) tt) /\
+    (~ (ro = false /\ valid_for c v = true) ->
+       exists e, gen_dispatch_set_value (Leaf h ro c d v0) v = MExn e (Leaf h ro c d v0)).
+Proof. exact gen_set_value_decides. Qed.
+Print Assumptions C18_generated_set_value_decides.
+
+(* clause 2 *)
+Theorem C18_generated_rejected_unchanged :
+  forall st o e, snd (gen_step st o) = ORaise e -> st_root (fst (gen_step st o)) = st_root st.
+Proof. exact gen_rejected_unchanged. Qed.
+Print Assumptions C18_generated_rejected_unchanged.
+
+(* clauses 3, 4 *)
+Theorem C18_generated_read_only_value_is_default :
+  forall ops h c d v, In (Leaf h true c d v) (nodes (st_root (gen_run init ops))) -> v = d.
+Proof. exact gen_read_only_value_is_default. Qed.
+Print Assumptions C18_generated_read_only_value_is_default.
+
+(* clause 5 *)
+Theorem C18_generated_get_by_extended_key :
+  forall n root ek x,
+    wf n root -> has_dot (pkey root) = false ->
+    In (ek, x) (ext_keys EmptyString root) -> ek <> pkey root ->
+    gen_InputParameterMap_get (fuel_of (rel_key ek)) root (rel_key ek) = Val x.
+Proof. exact gen_get_by_extended_key. Qed.
+Print Assumptions C18_generated_get_by_extended_key.
+
+(* clause 8 *)
+Theorem C18_generated_model_set_get_roundtrip :
+  forall root path v root',
+    gen_DSOLModel_set_parameter root path v = MOk root' tt ->
+    gen_DSOLModel_get_parameter root' path = Val (RV v).
+Proof. exact gen_model_set_get_roundtrip. Qed.
+Print Assumptions C18_generated_model_set_get_roundtrip.
+
+(* clause 9: a generated constructor that raises -- for whatever reason, at whatever point --
+   leaves the parent map exactly as it was (the content of /repo a3d4ad7: validate first) *)
+Theorem C18_generated_failed_construction_not_registered :
+  forall id s par e par', gen_construct id s par = MExn e par' -> par' = par.
+Proof. exact gen_failed_construction_not_registered. Qed.
+Print Assumptions C18_generated_failed_construction_not_registered.
+
+(* the example history, run through the generated functions, ends in the same tree *)
+Example ex_generated_run : gen_run init ex_ops = ex_state.
+Proof. vm_compute. reflexivity. Qed.
+
+Example ex_generated_roundtrip_hyp :
+  exists root', gen_DSOLModel_set_parameter (st_root ex_state) "sub.q" (VQty 0 (FFin 50) "km") = MOk root' tt.
+Proof. eexists. vm_compute. reflexivity. Qed.
+
+Example ex_generated_failed_construction_hyp :
+  exists e par', gen_construct 20 (mkSpec "z" 1 false SBool (VInt 1) no_flaws) (Some (st_root ex_state)) = MExn e par'.
+Proof. eexists. eexists. vm_compute. reflexivity. Qed.
